@@ -32,3 +32,6 @@ if ob_pat:
             r = solve.solve_one({'id': ob.id, 'texts': txt, 'budget_s': float(os.environ.get('BUDGET', '10')), 'expect': 'unsat'})
             print(r['verdict'], r['attempts'])
             break
+if os.environ.get('LIST'):
+    for ob in eng.obligations:
+        print(ob.id, ob.expect, ob.note[:60], '|', ob.goal.s[:200])
